@@ -213,4 +213,183 @@ theorem lemma_parseUnit_inv (r : List Char) (k : UnitKind) (h : parseUnit r = so
   · exact ⟨.B, true, rfl, by simp at h; subst h; rfl⟩
   · simp at h
 
+/-! ### qemu: character classes and the "(N bytes)" group -/
+
+open Oslo.Generated.C10 in
+theorem lemma_space_cases (c : Char) (h : isSpace c = true) :
+    isDigit c = false ∧ isWord c = false ∧ c ≠ '+' ∧ c ≠ '-' ∧ c ≠ '.' := by
+  have hn : c.toNat ∈ reSpaceAscii := by simpa [isSpace] using h
+  have hlt : c.toNat ≤ 32 := by
+    simp [reSpaceAscii] at hn; omega
+  refine ⟨?_, ?_, ?_, ?_, ?_⟩
+  · simp [isDigit]; omega
+  · have : c ≠ '_' := by rintro rfl; revert hlt; decide
+    simp [isWord, isDigit, this]; omega
+  · rintro rfl; revert hlt; decide
+  · rintro rfl; revert hlt; decide
+  · rintro rfl; revert hlt; decide
+
+theorem lemma_word_cases (c : Char) (h : isWord c = true) :
+    isSpace c = false ∧ c ≠ '+' ∧ c ≠ '-' ∧ c ≠ '.' ∧ c ≠ '(' := by
+  refine ⟨?_, ?_, ?_, ?_, ?_⟩
+  · cases hs : isSpace c with
+    | false => rfl
+    | true => have := (lemma_space_cases c hs).2.1; simp [this] at h
+  · rintro rfl; revert h; decide
+  · rintro rfl; revert h; decide
+  · rintro rfl; revert h; decide
+  · rintro rfl; revert h; decide
+
+theorem lemma_digit_word (c : Char) (h : isDigit c = true) : isWord c = true := by
+  simp [isWord, h]
+
+theorem lemma_dropP_all (p : Char → Bool) (a b : List Char) (ha : ∀ c ∈ a, p c = true) :
+    dropP p (a ++ b) = dropP p b := by
+  induction a with
+  | nil => rfl
+  | cons x xs ih =>
+    have hx : p x = true := ha x (by simp)
+    simp only [List.cons_append, dropP, hx, if_true]
+    exact ih (fun c hc => ha c (by simp [hc]))
+
+theorem lemma_dropP_id (p : Char → Bool) (c : Char) (r : List Char) (h : p c = false) :
+    dropP p (c :: r) = c :: r := by simp [dropP, h]
+
+def AllSpace (l : List Char) : Prop := ∀ c ∈ l, isSpace c = true
+def AllWord (l : List Char) : Prop := ∀ c ∈ l, isWord c = true
+
+/-- the five letters of `bytes`, in either case -/
+def IsBytesWord (b y t e s : Char) : Prop :=
+  (b = 'b' ∨ b = 'B') ∧ (y = 'y' ∨ y = 'Y') ∧ (t = 't' ∨ t = 'T') ∧ (e = 'e' ∨ e = 'E') ∧ (s = 's' ∨ s = 'S')
+
+/-- the text of group 3 after its opening parenthesis: `ws3 N ws4 bytes ws5 ) tail` -/
+def bytesTail (ws3 n ws4 : List Char) (b y t e s : Char) (ws5 tl : List Char) : List Char :=
+  ws3 ++ (n ++ (ws4 ++ (b :: y :: t :: e :: s :: (ws5 ++ ')' :: tl))))
+
+theorem lemma_parseBytesInfo (ws0 ws3 n ws4 : List Char) (b y t e s : Char) (ws5 tl : List Char)
+    (h0 : AllSpace ws0) (h3 : AllSpace ws3) (hn : AllDigits n) (hne : n ≠ [])
+    (h4 : AllSpace ws4) (h4ne : ws4 ≠ []) (hb : IsBytesWord b y t e s) (h5 : AllSpace ws5) :
+    parseBytesInfo (ws0 ++ '(' :: bytesTail ws3 n ws4 b y t e s ws5 tl) = some n := by
+  unfold parseBytesInfo bytesTail
+  have e0 : dropP isSpace (ws0 ++ '(' :: (ws3 ++ (n ++ (ws4 ++ (b :: y :: t :: e :: s :: (ws5 ++ ')' :: tl)))))) =
+      '(' :: (ws3 ++ (n ++ (ws4 ++ (b :: y :: t :: e :: s :: (ws5 ++ ')' :: tl))))) := by
+    rw [lemma_dropP_all isSpace ws0 _ h0]; exact lemma_dropP_id _ _ _ (by decide)
+  rw [e0]
+  simp only
+  obtain ⟨d, ds, rfl⟩ := List.exists_cons_of_ne_nil hne
+  obtain ⟨w, ws, rfl⟩ := List.exists_cons_of_ne_nil h4ne
+  have hd : isDigit d = true := hn d (by simp)
+  have hw : isSpace w = true := h4 w (by simp)
+  have e1 : dropP isSpace (ws3 ++ (d :: ds ++ (w :: ws ++ (b :: y :: t :: e :: s :: (ws5 ++ ')' :: tl))))) =
+      d :: ds ++ (w :: ws ++ (b :: y :: t :: e :: s :: (ws5 ++ ')' :: tl))) := by
+    rw [lemma_dropP_all isSpace ws3 _ h3]
+    cases hs : isSpace d with
+    | false => exact lemma_dropP_id _ _ _ hs
+    | true => have := (lemma_space_cases d hs).1; simp [hd] at this
+  rw [e1]
+  have e2 := lemma_span_append isDigit (d :: ds) (w :: ws ++ (b :: y :: t :: e :: s :: (ws5 ++ ')' :: tl))) hn
+    (fun c r h => by simp at h; rw [← h.1]; exact (lemma_space_cases w hw).1)
+  rw [e2.1, e2.2]
+  have hbsp : isSpace b = false := by rcases hb.1 with rfl | rfl <;> decide
+  have e3 := lemma_span_append isSpace (w :: ws) (b :: y :: t :: e :: s :: (ws5 ++ ')' :: tl)) h4
+    (fun c r h => by simp at h; rw [← h.1]; exact hbsp)
+  rw [e3.1, e3.2]
+  have e4 : stripBytesWord (b :: y :: t :: e :: s :: (ws5 ++ ')' :: tl)) = some (ws5 ++ ')' :: tl) := by
+    simp only [stripBytesWord]; exact if_pos hb
+  have e5 : dropP isSpace (ws5 ++ ')' :: tl) = ')' :: tl := by
+    rw [lemma_dropP_all isSpace ws5 _ h5]; exact lemma_dropP_id _ _ _ (by decide)
+  simp only [e4, e5]
+  simp
+
+/-! ### qemu: locating group 1 -/
+
+theorem lemma_parseMag_nonstart (c : Char) (r : List Char) (h1 : isDigit c = false) (h2 : c ≠ '.') :
+    parseMag (c :: r) = none := by
+  have e1 : takeP isDigit (c :: r) = [] := by simp [takeP, h1]
+  have e2 : dropP isDigit (c :: r) = c :: r := by simp [dropP, h1]
+  have e3 : parseSci [] (c :: r) = none := by
+    unfold parseSci; split <;> simp
+  have e4 : parseNumber (c :: r) = none := by
+    unfold parseNumber; rw [e1, e2]; unfold parseNumberAux
+    split
+    · next r2 heq => simp at heq; exact absurd heq.1 h2
+    · simp
+  unfold parseMag
+  rw [e1, e2, e3, e4]
+
+theorem lemma_findMag_skip (pre X : List Char) (hpre : ∀ c ∈ pre, isDigit c = false ∧ c ≠ '.') :
+    findMag (pre ++ X) = findMag X := by
+  induction pre with
+  | nil => rfl
+  | cons c cs ih =>
+    have hc := hpre c (by simp)
+    simp only [List.cons_append, findMag, lemma_parseMag_nonstart c _ hc.1 hc.2]
+    exact ih (fun x hx => hpre x (by simp [hx]))
+
+/-- `r` does not continue a digit run into e-notation (`[eE][-+]`) -/
+def NoSci (r : List Char) : Prop :=
+  ∀ e sg r2, r = e :: sg :: r2 → ¬ ((e = 'e' ∨ e = 'E') ∧ (sg = '-' ∨ sg = '+'))
+
+theorem lemma_parseSci_none (d r : List Char) (h : NoSci r) : parseSci d r = none := by
+  unfold parseSci
+  split
+  · next e sg r2 =>
+    have := h e sg r2 rfl
+    rw [if_neg]
+    rintro ⟨_, h1, h2, _⟩
+    exact this ⟨h1, h2⟩
+  · rfl
+
+theorem lemma_noSci_of_prefix (L T : List Char) (hL : ∀ c ∈ L, c ≠ '+' ∧ c ≠ '-') (hlen : 2 ≤ L.length) :
+    NoSci (L ++ T) := by
+  intro e sg r2 heq
+  match L, hL, hlen with
+  | a :: b :: L', hL, _ =>
+    simp at heq
+    have := hL b (by simp)
+    rintro ⟨_, h2⟩
+    rw [← heq.2.1] at h2
+    rcases h2 with h2 | h2
+    · exact this.2 h2
+    · exact this.1 h2
+
+theorem lemma_noSci_all (L : List Char) (hL : ∀ c ∈ L, c ≠ '+' ∧ c ≠ '-') : NoSci L := by
+  intro e sg r2 heq
+  subst heq
+  have := hL sg (by simp)
+  rintro ⟨_, h2⟩
+  rcases h2 with h2 | h2
+  · exact this.2 h2
+  · exact this.1 h2
+
+theorem lemma_findMag_dec (ip : List Char) (fp : Option (List Char)) (R : List Char)
+    (hwf : NumWF ip fp) (hend : NumEnd R) (hsci : NoSci R) :
+    findMag (ip ++ dotFrac fp ++ R) = some (.dec ip fp, R) := by
+  have hnum := lemma_parseNumber_render ip fp R hwf hend
+  have hsci' : parseSci (takeP isDigit (ip ++ dotFrac fp ++ R)) (dropP isDigit (ip ++ dotFrac fp ++ R)) = none := by
+    apply lemma_parseSci_none
+    cases fp with
+    | none =>
+      simp only [dotFrac, List.append_nil]
+      rw [(lemma_span_append isDigit ip R hwf.1 (fun c r h => (hend c r h).1)).2]
+      exact hsci
+    | some f =>
+      have e : ip ++ dotFrac (some f) ++ R = ip ++ '.' :: (f ++ R) := by simp [dotFrac]
+      rw [e, (lemma_span_append isDigit ip ('.' :: (f ++ R)) hwf.1
+        (fun c r h => by simp at h; rw [← h.1]; exact lemma_isDigit_dot)).2]
+      intro e' sg r2 heq
+      simp at heq
+      rintro ⟨h1, _⟩
+      rw [← heq.1] at h1
+      rcases h1 with h1 | h1 <;> exact absurd h1 (by decide)
+  have hmag : parseMag (ip ++ dotFrac fp ++ R) = some (.dec ip fp, R) := by
+    unfold parseMag; rw [hsci', hnum]
+  cases hX : ip ++ dotFrac fp ++ R with
+  | nil =>
+    rw [hX] at hnum
+    simp [parseNumber, takeP, dropP, parseNumberAux] at hnum
+  | cons c r =>
+    rw [hX] at hmag
+    simp only [findMag, hmag]
+
 end Oslo.Units
